@@ -160,7 +160,7 @@ var wantOps = []wantOp{
 	{"get", "/beta/things", "ListBeta", "Beta", false, "schemeD[read]", []string{"filter:query:true", "rank:query:true"}, "", "200", nil},
 	{"patch", "/beta/things/{thingId}/", "PatchBeta", "Beta", false, "schemeD[read]", []string{"thingId:path:true"}, "optional", "202", []string{"409", "422"}},
 	{"get", "/alpha/types", "AllTypes", "Alpha", false, "schemeA[read]", []string{"vint:query:true", "vint8:query:true", "vint16:query:true", "vint32:query:true", "vint64:query:true", "vuint:query:true", "vuint8:query:true", "vuint16:query:true", "vuint32:query:true", "vuint64:query:true", "vbool:query:true", "vfloat32:query:true", "vfloat64:query:true", "vstring:query:true", "puint:query:false", "pint64:query:false", "pfloat32:query:false", "pbool:query:false", "aint:query:true", "auint:query:true", "astring:query:true", "afloat64:query:true"}, "", "204", nil},
-	{"get", "/alpha/count", "CountAlpha", "Alpha", false, "schemeA[read]", nil, "", "200", nil},
+	{"get", "/alpha/count", "CountAlpha", "Alpha", false, "schemeA[read]", nil, "", "200", []string{"400", "503"}},
 	{"put", "/gamma/receipts", "FileReceipt", "Gamma", false, "schemeD[read]", nil, "required", "200", nil},
 	{"post", "/gamma/widgets", "CreateWidget", "Gamma", false, "schemeD[read]", nil, "required", "200", []string{"500"}},
 	{"get", "/gamma/widgets/names", "ListWidgetNames", "Gamma", false, "schemeD[read]", []string{"colour:query:true"}, "", "200", nil},
